@@ -78,6 +78,12 @@ def jobs(prop, tier, seed):
     for n_fields, n_methods in ([(2, 1), (3, 0)] if tier == "quick" else [(2, 1), (3, 0), (2, 2), (3, 1)]):
         for ov in ("none", "mapping"):
             out.append(dict(harness="C16", variant="sites", pid=f"sites(f={n_fields},m={n_methods},{ov})", nf=n_fields, nm=n_methods, override=ov, opts={}, bounds={}, budget_s=150 if tier == "quick" else 900))
+    # methods that are GraphQL resolvers and serialized methods at once: the GraphQL type follows too
+    for n_fields, n_methods in ([(2, 1)] if tier == "quick" else [(2, 1), (2, 2)]):
+        out.append(dict(harness="C16", variant="sites", pid=f"sites(f={n_fields},m={n_methods},resolver)", nf=n_fields, nm=n_methods, override="resolver", opts={}, bounds={}, budget_s=150 if tier == "quick" else 900))
+    # serialized methods declared at two levels of a hierarchy: those of the base come first
+    for n_fields, n_methods in ([(1, 2)] if tier == "quick" else [(1, 2), (2, 2), (1, 3)]):
+        out.append(dict(harness="C16", variant="sites", pid=f"sites(f={n_fields},m={n_methods},hier)", nf=n_fields, nm=n_methods, override="hier", opts={}, bounds={}, budget_s=150 if tier == "quick" else 900))
     return out
 
 
@@ -180,18 +186,27 @@ class Sites:
         lines = [
             "from dataclasses import dataclass, field",
             "from apischema import order, serialized",
+            "from apischema.graphql import resolver",
         ]
+        deco = "resolver" if self.job["override"] == "resolver" else "serialized"
+        extra = ", serialized=True" if deco == "resolver" else ""
+        hier = self.job["override"] == "hier"
+        if hier:  # the first method lives in a base class
+            lines += ["@dataclass", "class B:"]
+            m = md(spec["m0"])
+            lines.append(f"    @serialized('M0', order={m})" if m else "    @serialized('M0')")
+            lines += ["    def m0(self) -> int:", "        return 10"]
         if over:
             lines.append("@order({" + ", ".join(f"{k!r}: {md(v)}" for k, v in over.items()) + "})")
-        lines += ["@dataclass", "class C:"]
+        lines += ["@dataclass", "class C(B):" if hier else "class C:"]
         for i in range(self.nf):
             n = f"f{i}"
             m = md(spec[n])
             lines.append(f"    {n}: int = " + (f"field(default={i}, metadata={m})" if m else str(i)))
-        for i in range(self.nm):
+        for i in range(1 if hier else 0, self.nm):
             n = f"m{i}"
             m = md(spec[n])
-            lines.append(f"    @serialized('M{i}', order={m})" if m else f"    @serialized('M{i}')")
+            lines.append(f"    @{deco}('M{i}', order={m}{extra})" if m else f"    @{deco}('M{i}'{extra})")
             lines.append(f"    def {n}(self) -> int:")
             lines.append(f"        return {10 + i}")
         return "\n".join(lines) + "\n"
@@ -260,7 +275,7 @@ class Sites:
             mprops = list(merged.get("C", {}).get("properties", {}))
             if mprops != exp:
                 return Failure("definitions-schema-property-order", witness=wit, extra={"result": mprops, "expected": exp})
-        if self.nm == 0:
+        if self.nm == 0 or self.job["override"] == "resolver":
             import graphql
 
             from apischema.graphql import graphql_schema
